@@ -157,13 +157,13 @@ func TestVerif_C18(t *testing.T) {
 		maxN = 5
 	}
 	rep := vh.NewReport("C18", "firstsuccess",
-		"exhaustive: every outcome vector (each job success or error, distinct values) for 1..maxN jobs x every completion order x limits -1,1..n; a case is non-trivial when it has >= 2 jobs; distinct by (outs,limit,order)")
+		"exhaustive: every outcome vector (each job success or error, distinct values) for 0..maxN jobs x every completion order x limits -1,1..n; a case is non-trivial when it has >= 2 jobs; distinct by (outs,limit,order)")
 	cases := vh.NewCases("cases_c18", []string{"YF.FS", "YF.FSCheck"}, "case", "check")
 	rep.Exhaustive = true
 	rng := vh.NewRng(vh.Seed())
 	greedyAgree := 0
 	nTimeouts := 0
-	for n := 1; n <= maxN; n++ {
+	for n := 0; n <= maxN; n++ { // n = 0: the empty job set (no epoch loaded) must give the empty error list, not a value
 		perms := vc18Perms(n)
 		for mask := 0; mask < 1<<uint(n); mask++ {
 			outs := make([]int64, n)
@@ -179,9 +179,15 @@ func TestVerif_C18(t *testing.T) {
 				for l := 1; l <= n; l++ {
 					limits = append(limits, l)
 				}
-				for _, lim := range limits {
+				if n == 0 {
+					limits = append(limits, 1, 3, 1, 3) // twice: both entry points (FirstSuccess, JobGroup) get picked
+				}
+				for li, lim := range limits {
 					c := vc18Case{Outs: outs, Limit: lim, Order: order}
 					useJG := rng.Bool()
+					if n == 0 {
+						useJG = li%2 == 1
+					}
 					val, errs, isErr, timedOut, other := vc18Run(c, useJG)
 					key := fmt.Sprint(outs, lim, order)
 					rep.Case(key, n >= 2)
